@@ -15,11 +15,13 @@ its executions in _COUNT, so a wrong hit, a needless recomputation and the versi
 all visible.  The undecorated twin of every version (same source, never wrapped) is the oracle for values;
 inspect.signature(...).bind is the oracle for call equivalence.
 """
+import functools
 import inspect
 import json
 import os
 import pickle
 import sys
+import types
 import warnings
 
 warnings.simplefilter("ignore")
@@ -65,6 +67,8 @@ def canon(v):
         return "%s{%s}" % (t, ",".join(sorted(canon(k) + ":" + canon(w) for k, w in v.items())))
     if isinstance(v, (set, frozenset)):
         return "%s{%s}" % (t, ",".join(sorted(canon(e) for e in v)))
+    if hasattr(v, "__dict__") and not callable(v):
+        return "obj:%s%s" % (t, canon(vars(v)))
     return "%s:%r" % (t, v)
 
 
@@ -104,7 +108,10 @@ def source_for(sc, k):
     sig = ", ".join(parts)
     pad = "".join("# pad %d\n" % j for j in range(ver.get("pad", 0)))
     kind = ver.get("kind", "def")
-    if kind == "lambda":
+    if kind == "method":
+        body = ("class K:\n    def __init__(self):\n        self.tag = 1\n\n"
+                "    def g(self, %s):\n        _COUNT[0] += 1\n        return %s\n\ng = K().g\n" % (sig, ret))
+    elif kind == "lambda":
         body = "g = lambda %s: (_COUNT.__setitem__(0, _COUNT[0] + 1), %s)[1]\n" % (sig, ret)
     elif kind == "nested":
         body = ("def make():\n    def g(%s):\n        _COUNT[0] += 1\n        return %s\n    return g\n"
@@ -116,10 +123,14 @@ def source_for(sc, k):
 
 def ideal_filter_args(func, ignore, pos, kw):
     """what filter_args should return: the binding of the call in joblib's own name -> value convention"""
+    if isinstance(func, functools.partial):
+        return {"*": list(pos), "**": dict(kw)}       # joblib's documented convention for such callables
     sig = inspect.signature(func)
     ba = sig.bind(*pos, **kw)
     ba.apply_defaults()
     out = {}
+    if inspect.ismethod(func):
+        out[next(iter(inspect.signature(func.__func__).parameters))] = func.__self__
     for name, p in sig.parameters.items():
         if p.kind is p.VAR_POSITIONAL:
             out["*"] = list(ba.arguments[name])
@@ -132,6 +143,10 @@ def ideal_filter_args(func, ignore, pos, kw):
     return out
 
 
+class _RawForm(Exception):
+    pass
+
+
 def main():
     job = json.load(sys.stdin)
     sc = job["scenario"]
@@ -142,7 +157,7 @@ def main():
     if os.path.exists(job["refs"]):
         with open(job["refs"], "rb") as fh:
             refs = pickle.load(fh)
-    objs, plains, wraps, counts = {}, {}, {}, {}
+    objs, plains, wraps, counts, bases = {}, {}, {}, {}, {}
     valid = [True]
 
     def entry_dirs():
@@ -166,13 +181,32 @@ def main():
                 with open(path, "w") as fh:
                     fh.write(src)
                 modname = "__main__" if ver.get("kind") == "main" else "verifmod"
-                ns = {"__name__": modname}
-                exec(compile(src, path, "exec"), ns)
-                objs[k] = ns["g"]
+
+                def load(name, fname):
+                    if ver.get("kind") == "method":
+                        # the instance is hashed (pickled) as part of the key: its class must be importable
+                        mod = types.ModuleType(name)
+                        exec(compile(src, fname, "exec"), mod.__dict__)
+                        sys.modules[name] = mod
+                        return mod.__dict__
+                    ns_ = {"__name__": name}
+                    exec(compile(src, fname, "exec"), ns_)
+                    return ns_
+                if ver.get("kind") == "partial":
+                    # 2-3 partial objects of ONE function: the base is executed once per process and file
+                    if path not in bases:
+                        bases[path] = (load(modname, path), load("verifplain", path + ".plain"))
+                    ns, ns2 = bases[path]
+                    fpos = [dec(v) for v in ver["frozen"]["pos"]]
+                    fkw = {n: dec(v) for n, v in ver["frozen"]["kw"]}
+                    objs[k] = functools.partial(ns["g"], *fpos, **fkw)
+                    plains[k] = functools.partial(ns2["g"], *fpos, **fkw)
+                else:
+                    ns = load(modname, path)
+                    ns2 = load("verifplain", path + ".plain")
+                    objs[k] = ns["g"]
+                    plains[k] = ns2["g"]
                 counts[k] = ns["_COUNT"]
-                ns2 = {"__name__": "verifplain"}
-                exec(compile(src, path + ".plain", "exec"), ns2)
-                plains[k] = ns2["g"]
                 wraps.pop(k, None)
                 res["o"] = "done"
             elif kind == "wrap":
@@ -191,10 +225,16 @@ def main():
                     ba = inspect.signature(plains[k]).bind(*pos, **kw)
                     ba.apply_defaults()
                     res["bind"] = canon(dict(ba.arguments))
+                    if isinstance(plains[k], functools.partial):
+                        raise _RawForm()
                     keep = {n: v for n, v in ba.arguments.items()
                             if {"va": "*", "vk": "**"}.get(
                                 {p[0]: p[1] for p in sc["params"]}[n], n) not in sc["ignore"]}
                     res["bind_r"] = canon(keep)
+                    res["expect"] = canon(plains[k](*pos, **kw))
+                except _RawForm:
+                    # joblib keys such callables by the call form itself ({'*': args, '**': kwargs})
+                    res["bind"] = res["bind_r"] = canon({"*": list(pos), "**": dict(kw)})
                     res["expect"] = canon(plains[k](*pos, **kw))
                 except TypeError:
                     res["bind"] = None
